@@ -94,9 +94,9 @@ def bucket_array(bucket: str, v: float, rows: int, cols: int, args: dict) -> Any
     if bucket in ("photon3d", "photon3d+"):
         nw = int(args.get("nwave", 3))
         return np.stack([base + 0.1 * k for k in range(nw)]).astype(args.get("float_dtype", "float64"))
-    if bucket in ("charge", "clusters"):
+    if bucket in ("charge", "clusters", "clusters*2"):
         return base
-    if bucket == "pixel":
+    if bucket in ("pixel", "pixel=charge"):
         return base
     if bucket == "phase":
         return base * 0.5
@@ -195,16 +195,22 @@ def simulate(scn: dict, overrides: Optional[dict] = None) -> dict:
                     add[0, 0] += arr[0, 0]
                     add[-1, -1] += arr[-1, -1]
                     state["charge"] = state["charge"] + add
+                    state["frame"] = True
                 elif b in ("scene", "data", "phase"):
                     pass
+                elif b == "clusters*2":
+                    if state.get("frame"):
+                        state["charge"] = state["charge"] * 2.0
                 elif b == "charge":
                     state["charge"] = state["charge"] + arr
                 elif b == "pixel":
                     state["pixel"] = state["pixel"] + arr
+                elif b == "pixel=charge":
+                    state["pixel"] = np.array(state["charge"], dtype=float)
                 else:
                     state[b] = arr
         pixel = state["pixel"]
-        steps.append({k: (None if a is None else np.array(a)) for k, a in state.items()})
+        steps.append({k: (None if a is None else np.array(a)) for k, a in state.items() if k != "frame"})
         clocks.append(clk)
     return {"events": events, "steps": steps, "clocks": clocks}
 
